@@ -276,6 +276,10 @@ func C19(r *ck.Run) {
 					o := cfg
 					o.Events = sender
 					w := NewWorld("c19", o)
+					if cfg.Versioning {
+						// the bucket keeps versions: the records must name the version a request created or removed
+						Must(w.F.Do(gw.Root, "PUT", "/"+w.Bucket, "versioning", nil, []byte("<VersioningConfiguration><Status>Enabled</Status></VersioningConfiguration>")), "enable versioning")
+					}
 					sink.take()
 					req := c.Req(w)
 					sink.take() // notifications of the case's own preparation
@@ -364,6 +368,9 @@ func c19Compare(want []c19Want, got []s3event.EventRecord, bucket string) string
 			found = true
 			if g.S3.Bucket.Name != bucket {
 				return "wrong-bucket-name"
+			}
+			if g.S3.Bucket.Arn != "arn:aws:s3:::"+bucket {
+				return "wrong-bucket-arn"
 			}
 			if w.Size >= 0 && g.S3.Object.Size != w.Size {
 				return "wrong-size"
